@@ -16,6 +16,7 @@ const maxInlineDepth = 4
 type retSite struct {
 	st   *State
 	vals []Term
+	blk  *ssa.BasicBlock // the block of the return instruction (locals in scope for per-site clauses)
 }
 
 type loopInfo struct {
@@ -624,6 +625,11 @@ func (fr *Frame) instr(st *State, b *ssa.BasicBlock, in ssa.Instruction) (bool, 
 			return false, fr.unsupportedErr(in, err)
 		}
 		fr.vals[x] = vc.Define(x.Name(), r)
+		if !x.Heap && addrPrivate(x) && !vc.tt.isAggregateTooLarge(el) {
+			// a local whose address never leaves the function (only loads, stores and field
+			// addressing): no callee can write it, whatever its frame clause says
+			vc.captured = append(vc.captured, capturedCell{fr.vals[x], el})
+		}
 	case *ssa.Store:
 		a, err := fr.value(x.Addr)
 		if err != nil {
@@ -814,6 +820,15 @@ func (fr *Frame) instr(st *State, b *ssa.BasicBlock, in ssa.Instruction) (bool, 
 		if fs != ts {
 			c, ok := vc.convertStruct(a, x.X.Type(), x.Type())
 			if !ok {
+				if fs != SRef && ts != SRef && fs != SSlice && ts != SSlice && fs != SIface && ts != SIface {
+					// a value conversion between types of identical underlying type that are
+					// modelled by different sorts (one of them opaque): the result is a function
+					// of the operand, nothing more is known
+					name := "chtype!" + sanitize(string(fs)) + "!" + sanitize(string(ts))
+					vc.DeclareFun(name, []Sort{fs}, ts)
+					def(x, App(ts, name, a))
+					break
+				}
 				return false, havocValue(x, "ChangeType across sorts")
 			}
 			def(x, c)
@@ -970,7 +985,7 @@ func (fr *Frame) instr(st *State, b *ssa.BasicBlock, in ssa.Instruction) (bool, 
 			}
 			vals = append(vals, t)
 		}
-		fr.rets = append(fr.rets, retSite{st: st, vals: vals})
+		fr.rets = append(fr.rets, retSite{st: st, vals: vals, blk: b})
 		return true, nil
 	case *ssa.Jump:
 		return true, fr.setEdge(b, b.Succs[0], st)
@@ -1622,7 +1637,7 @@ func (fr *Frame) enterLoop(li *loopInfo, pre *State, phis []*ssa.Phi, phiEntry m
 			hs.touch(Sort(ss))
 		}
 	} else if ef.all {
-		vc.havocAll(hs)
+		vc.havocAllLoop(hs)
 	} else {
 		var sl []string
 		for _, s := range sortedKeys(ef.sorts) {
@@ -2160,4 +2175,37 @@ func (fr *Frame) lookupLocalAddr(name string) (Term, types.Type, bool) {
 		}
 	}
 	return Term{}, nil, false
+}
+
+// addrPrivate: the address of a stack variable is used only to load from it, to store into it,
+// and to address its fields or elements (recursively) - it is never passed, stored or captured.
+func addrPrivate(v ssa.Value) bool {
+	refs := v.Referrers()
+	if refs == nil {
+		return false
+	}
+	for _, r := range *refs {
+		switch x := r.(type) {
+		case *ssa.DebugRef:
+		case *ssa.UnOp:
+			if x.Op != token.MUL {
+				return false
+			}
+		case *ssa.Store:
+			if x.Val == v {
+				return false
+			}
+		case *ssa.FieldAddr:
+			if !addrPrivate(x) {
+				return false
+			}
+		case *ssa.IndexAddr:
+			if x.X != v || !addrPrivate(x) {
+				return false
+			}
+		default:
+			return false
+		}
+	}
+	return true
 }
